@@ -30,6 +30,8 @@ type genEv struct {
 type item struct {
 	ev    int // event number, or -1
 	reset []string
+	x     bool   // re-feed of event ev after a RESET to the same epoch: Process with the claimed frame xf
+	xf    uint32
 }
 
 func vwTok(v []VW) []string {
@@ -247,6 +249,13 @@ func Gen(r *rand.Rand, o GenOpts) []string {
 
 	nEv := 20 + r.Intn(o.MaxEv-19)
 	var evs []*genEv
+	refr := map[int]uint32{} // frames of events re-fed after a same-epoch RESET
+	frameOf := func(j int) uint32 {
+		if f, ok := refr[j]; ok {
+			return f
+		}
+		return evs[j].def.Frame
+	}
 	var script []item
 	firstSwitch := -1 // index in script of the first item processed in a later epoch
 	var firstSwitchReset []string
@@ -353,18 +362,31 @@ func Gen(r *rand.Rand, o GenOpts) []string {
 
 	for len(evs) < nEv {
 		// arbitrary RESET (generation-time, so that later events belong to the new epoch)
-		if (o.Mix == "C09" && r.Intn(60) == 0) || (o.Mix != "C09" && o.Mix != "C07" && o.Mix != "C08" && r.Intn(400) == 0) {
+		resetRate := map[string]int{"C09": 60, "C03": 40, "C04": 120, "C02": 150, "C08": 100}[o.Mix]
+		if resetRate > 0 && r.Intn(resetRate) == 0 {
 			ne := ref.Epoch() + uint32(r.Intn(3))
 			if r.Intn(5) == 0 {
 				ne = uint32(1 + r.Intn(50))
 			}
-			nv := mutateVals(r, func() []VW {
-				var cur []VW
-				for _, id := range es.ids {
-					cur = append(cur, VW{id, es.w[id]})
+			var curVals []VW
+			for _, id := range es.ids {
+				curVals = append(curVals, VW{id, es.w[id]})
+			}
+			nv := mutateVals(r, curVals)
+			if o.Mix == "C03" || r.Intn(3) == 0 {
+				// re-ordered validators: the same ids with the weights dealt out anew (canonical order changes)
+				nv = append([]VW{}, curVals...)
+				perm := r.Perm(len(nv))
+				bump := es.total+uint64(len(nv)) <= 1<<31-1
+				for k := range nv {
+					nv[k].W = curVals[perm[k]].W
+					if bump {
+						nv[k].W += uint32(r.Intn(2))
+					}
 				}
-				return cur
-			}())
+			}
+			oldAll := append([]int{}, es.all...)
+			sameEpoch := ne == ref.Epoch()
 			ref.Reset(ne, nv)
 			tok := append([]string{"RESET", fmt.Sprint(ne)}, vwTok(nv)...)
 			if firstSwitch < 0 {
@@ -373,6 +395,43 @@ func Gen(r *rand.Rand, o GenOpts) []string {
 			}
 			script = append(script, item{ev: -1, reset: tok})
 			es = newEpochState()
+			if sameEpoch {
+				// RESET to the CURRENT epoch: the same events (same ids) are connected again, with the frames the
+				// re-weighted validator set gives them (op X = Process with a claimed frame)
+				refed := map[int]bool{}
+				for k, j := range oldAll {
+					if k >= 40 {
+						break
+					}
+					d := evs[j].def
+					okp := es.w[d.Creator] != 0
+					for _, p := range d.Parents {
+						if !refed[p] {
+							okp = false
+						}
+					}
+					if !okp {
+						continue
+					}
+					rr := &runner{defs: map[int]*EvDef{}, ids: map[int]hash.Event{}}
+					for _, p := range d.Parents {
+						rr.ids[p] = idOf(evs[p].def)
+					}
+					te := rr.mk(d, 0)
+					if res := ref.Build(te); !strings.HasPrefix(res, "f") {
+						break
+					}
+					nf := uint32(te.Frame())
+					if pres, _ := ref.Process(rr.mk(d, nf)); pres != "ok" {
+						break
+					}
+					refed[j] = true
+					refr[j] = nf
+					script = append(script, item{ev: j, x: true, xf: nf})
+					es.own[d.Creator] = append(es.own[d.Creator], j)
+					es.all = append(es.all, j)
+				}
+			}
 			continue
 		}
 		if r.Intn(25) == 0 {
@@ -411,7 +470,7 @@ func Gen(r *rand.Rand, o GenOpts) []string {
 			d.Parents = append(d.Parents, sp)
 			d.Seq = evs[sp].def.Seq + 1
 			lam = evs[sp].def.Lamport
-			spf = evs[sp].def.Frame
+			spf = frameOf(sp)
 		} else {
 			d.Seq = 1
 		}
@@ -504,6 +563,29 @@ func Gen(r *rand.Rand, o GenOpts) []string {
 	for _, p := range policy {
 		add(append([]string{"S", fmt.Sprint(p.Epoch), fmt.Sprint(p.Block)}, vwTok(p.Vals)...)...)
 	}
+	// application-side options: "L mode n flags"
+	//   mode: ApplyEvent listener policy (not for C09: its reference instance starts mid-run);
+	//         3 = the application installs no BeginBlock at all (no blocks, no sealing)
+	//   flags: 1 = EndBlock is nil on the blocks that do not seal; 2 = one-byte vector caches in the index
+	lmode, ln, lflags := 0, 0, 0
+	if o.Mix != "C09" && ((o.Mix == "C02" && r.Intn(3) == 0) || r.Intn(8) == 0) {
+		if r.Intn(2) == 0 {
+			lmode, ln = 1, 2+r.Intn(4)
+		} else {
+			lmode = 2
+		}
+	} else if o.Mix != "C09" && r.Intn(40) == 0 {
+		lmode = 3
+	}
+	if r.Intn(4) == 0 {
+		lflags |= 1
+	}
+	if r.Intn(4) == 0 {
+		lflags |= 2
+	}
+	if lmode != 0 || lflags != 0 {
+		add("L", fmt.Sprint(lmode), fmt.Sprint(ln), fmt.Sprint(lflags))
+	}
 	for _, e := range evs {
 		g := []string{"E", fmt.Sprint(e.def.N), fmt.Sprint(e.def.Epoch), fmt.Sprint(e.def.Creator), fmt.Sprint(e.def.Seq),
 			fmt.Sprint(e.def.Lamport), fmt.Sprint(e.def.Frame)}
@@ -532,6 +614,7 @@ func Gen(r *rand.Rand, o GenOpts) []string {
 	}
 	builds := 0 // builds executed by the main instance since its last restart
 	burstDone := false
+	rburstDone := false
 	arbBuild := func(kind string) []string {
 		// a speculative event with an arbitrary parent subset among the accepted events of this epoch
 		if len(cur.ids) == 0 {
@@ -674,6 +757,12 @@ func Gen(r *rand.Rand, o GenOpts) []string {
 			}
 			continue
 		}
+		if it.x {
+			push([]string{"X", fmt.Sprint(it.ev), fmt.Sprint(it.xf)})
+			cur.own[evs[it.ev].def.Creator] = append(cur.own[evs[it.ev].def.Creator], it.ev)
+			cur.all = append(cur.all, it.ev)
+			continue
+		}
 		e := evs[it.ev]
 		if e.def.Epoch != cur.epoch { // first event of an epoch reached by sealing
 			cur = &seen{epoch: e.def.Epoch, own: map[uint32][]int{}}
@@ -734,6 +823,20 @@ func Gen(r *rand.Rand, o GenOpts) []string {
 					builds += len(pre) + 1
 					burstDone = true
 				}
+			}
+			if !rburstDone && e.def.Seq > 1 && len(e.def.Parents) >= 2 && e.def.Frame > e.spf && r.Intn(3) == 0 {
+				// in-process restarts that keep the index object: the build counter restarts at 1, so build #1 before
+				// and build #1 after the restart get the same temporary id (same epoch and Lamport time)
+				mk := func(kind string, ps []int) []string {
+					g := []string{kind, fmt.Sprint(e.def.Epoch), fmt.Sprint(e.def.Creator), fmt.Sprint(e.def.Seq), fmt.Sprint(e.def.Lamport)}
+					for _, p := range ps {
+						g = append(g, fmt.Sprint(p))
+					}
+					return g
+				}
+				main = append(main, []string{"r"}, mk("b", e.def.Parents[:1]), []string{"r"}, mk("B", e.def.Parents))
+				builds = 1
+				rburstDone = true
 			}
 		case "C07":
 			if r.Intn(4) == 0 {
@@ -812,13 +915,13 @@ func Gen(r *rand.Rand, o GenOpts) []string {
 				if inj != nil {
 					pushBoth(inj)
 					if r.Intn(2) == 0 {
-						main = append(main, []string{"R"})
+						main = append(main, []string{[]string{"R", "R", "r"}[r.Intn(3)]})
 					}
 				}
 			}
 		}
 		if o.Mix == "C07" && r.Intn(10) == 0 {
-			pushBoth([]string{"R"}) // a restart after injected operations, in both runs
+			pushBoth([]string{[]string{"R", "r"}[r.Intn(2)]}) // a restart after injected operations, in both runs
 			builds = 0
 		}
 		if !skipP {
@@ -832,7 +935,7 @@ func Gen(r *rand.Rand, o GenOpts) []string {
 		if o.Mix == "C08" {
 			// restart boundaries: always right after a decision / seal, otherwise by the scenario's rate
 			if e.blocks > 0 || e.sealed || r.Intn(100) < rrate {
-				main = append(main, []string{"R"})
+				main = append(main, []string{[]string{"R", "R", "r"}[r.Intn(3)]})
 				builds = 0
 			}
 		}
@@ -850,7 +953,7 @@ func Gen(r *rand.Rand, o GenOpts) []string {
 				continue // long cascade prefix: restarts start shortly before the chained decisions
 			}
 			if g[0] == "P" || g[0] == "X" || g[0] == "Y" || g[0] == "b" {
-				main = append(main, []string{"R"})
+				main = append(main, []string{[]string{"R", "R", "r"}[r.Intn(3)]})
 			}
 		}
 	}
